@@ -52,11 +52,11 @@ Qed.
 Ltac mono_step :=
   match goal with
   | |- ple ?x ?x => apply ple_refl
-  | |- ple (pbind _ _) (pbind _ _) => apply ple_bind; [| intros ? ?; cbv beta]
+  | |- ple (pbind _ _) (pbind _ _) => apply ple_bind; [| intros ? ?; cbv beta zeta]
   | |- ple (match ?x with _ => _ end) _ => destruct x
   | |- ple _ _ => solve [auto]
   end.
-Ltac mono := cbv beta; repeat mono_step.
+Ltac mono := cbv beta zeta; repeat mono_step.
 
 Section Mono.
 Variable eofl : N.
